@@ -25,18 +25,23 @@ def run(ctx):
             f.write(json.dumps(s) + "\n")
     binp = ctx.go_build("./cmd/reasm")
     tp = ctx.path("trace.ndjson")
-    p = ctx.run([binp, "-in", sp, "-out", tp, "-seed", str(ctx.seed)], timeout=3400)
+    p = ctx.run([binp, "-in", sp, "-out", tp, "-seed", str(ctx.seed), "-backlogevery", "3" if ctx.quick else "2"],
+                timeout=3400)
     st = json.loads(p.stdout.strip().splitlines()[-1])
     bad, nlines, vstates = sshdfam.validate(ctx, tp, "reasm", module="ReasmTrace", cfg="ReasmTrace.cfg")
+    nsetup = sum(1 for l in open(tp) if '"setup-failed"' in l)
+    if nsetup:
+        raise Infra("%d scenarios could not be set up by the harness" % nsetup)
     groups = {}
     for b in bad:
         r = b["rec"]
-        groups.setdefault((b["what"], r["fault"]["kind"]), []).append(r)
+        groups.setdefault((b["what"], r["fault"]["kind"] + "/" + r.get("mode", "stepwise")), []).append(r)
     for (what, kind), rs in groups.items():
         rs.sort(key=lambda r: len(r["order"]))
         r = rs[0]
         ctx.violation("%s/%s" % (what, kind),
-                      "%s (%d scenarios): events %s, records fed in the order %s, fault %s -> events at the output %s, "
+                      "%s (%d scenarios; delivery mode after the slash: stepwise = line by line, backlog = stream queued in "
+                      "the line channel, busy = failure reported while Read handles a login): events %s, records fed in the order %s, fault %s -> events at the output %s, "
                       "Read returned %s (%s)" % (what, len(rs), r["shapes"], r["order"], r["fault"], r["obs"]["events"],
                                                  r["obs"]["ret"], r["obs"]["rets"][:200]),
                       {"kind": "reassembler-scenario", "shapes": r["shapes"], "order": r["order"], "fault": r["fault"],
